@@ -29,13 +29,14 @@ def shards(tier):
     states = [list(p) for p in itertools.product((0, 1, 2), repeat=3)] + ["all"]
     if tier == "quick":
         states = [[0, 0, 0], [1, 0, 0], [2, 0, 0], [1, 2, 0], [1, 1, 2], [2, 2, 1], "all"]
+    rich = [[0, 0, 0], [1, 0, 0], [2, 0, 0], [1, 2, 0], [1, 1, 2], [2, 2, 1], [1, 1, 1], [2, 2, 2], [0, 1, 2], "all"]
     for pre in states:
         for op in OPS_LIST:
-            for n in ((0, 1, 2) if tier == "quick" else (0, 1, 2, 3)):
+            for n in ((0, 1, 2) if (tier == "quick" or pre not in rich) else (0, 1, 2, 3)):
                 if tier == "quick" and n == 0 and pre not in ([0, 0, 0], "all"):
                     continue
                 out.append({"pre": pre, "op": op, "n": n})
-                if n == 2 and (tier != "quick" or pre in ([1, 2, 0], "all")):
+                if n == 2 and ((tier != "quick" and pre in rich) or pre in ([1, 2, 0], "all")):
                     out.append({"pre": pre, "op": op, "n": n, "order": "rev"})
                     if tier != "quick":
                         out.append({"pre": pre, "op": op, "n": n, "order": "rot"})
@@ -44,7 +45,7 @@ def shards(tier):
             if tier != "quick":
                 out.append({"pre": pre, "op": op, "n": 0, "order": "rev"})
         for op in OPS_CTX:
-            for n in ((1, 2) if tier == "quick" else (0, 1, 2, 3)):
+            for n in ((1, 2) if tier == "quick" else ((0, 1, 2, 3) if pre in rich else (1, 2))):
                 out.append({"pre": pre, "op": op, "n": n})
     return out
 
